@@ -46,6 +46,8 @@ import (
 
 var _ xdb.Database = (*recDB)(nil)
 
+var readersAlways bool // readers=always: every fault-free commit runs with concurrent readers (race evidence run)
+
 var tokenContract = common.HexToAddress("0x71d9cfd1b7adb1e8eb4c193ce6ffbe19b4aee0db")
 
 // ---------------------------------------------------------------------------
@@ -988,7 +990,7 @@ func (w *world) commitFrom(adb *account.AccountDB, touched map[common.Address]bo
 	w.rec.failPutAt = p.failPutAt
 	w.rec.faults = 0
 	var readers *concurrentReaders
-	if p.failAt < 0 && p.failPutAt < 0 && rg.Chance(1, 3) {
+	if p.failAt < 0 && p.failPutAt < 0 && (rg.Chance(1, 3) || readersAlways) {
 		readers = w.startReaders(root, exp, durableBefore)
 	}
 	cerr := tdb.Commit(root, false)
@@ -1295,6 +1297,7 @@ func main() {
 		r.violFile, _ = os.Create(a["obs"] + ".viol")
 	}
 	only := hx.ArgInt(a, "only", -1)
+	readersAlways = a["readers"] == "always"
 
 	type sc struct {
 		big     bool
